@@ -6,18 +6,35 @@ toolchain go1.24.1
 
 require (
 	buf.build/gen/go/bufbuild/protovalidate/protocolbuffers/go v1.36.6-20250307204501-0409229c3780.1
+	github.com/bufbuild/protocompile v0.14.1
 	github.com/pentops/j5 v0.0.0
+	github.com/pentops/log.go v0.0.0-20250304233315-e0210b7a6dc3
 	github.com/shopspring/decimal v1.4.0
 	google.golang.org/protobuf v1.36.6
 	pgregory.net/rapid v1.3.0
 )
 
 require (
+	buf.build/go/protoyaml v0.3.1 // indirect
+	cel.dev/expr v0.22.0 // indirect
+	github.com/antlr4-go/antlr/v4 v4.13.1 // indirect
+	github.com/bufbuild/protovalidate-go v0.9.2 // indirect
+	github.com/fatih/color v1.18.0 // indirect
+	github.com/google/cel-go v0.24.1 // indirect
 	github.com/google/uuid v1.6.0 // indirect
 	github.com/iancoleman/strcase v0.3.0 // indirect
+	github.com/mattn/go-colorable v0.1.14 // indirect
+	github.com/mattn/go-isatty v0.0.20 // indirect
+	github.com/pentops/golib v0.0.0-20250107012216-1b5307b3bfe0 // indirect
+	github.com/stoewer/go-strcase v1.3.0 // indirect
+	golang.org/x/exp v0.0.0-20250305212735-054e65f0b394 // indirect
+	golang.org/x/sync v0.12.0 // indirect
 	golang.org/x/sys v0.31.0 // indirect
+	golang.org/x/text v0.23.0 // indirect
+	google.golang.org/genproto/googleapis/api v0.0.0-20250324211829-b45e905df463 // indirect
 	google.golang.org/genproto/googleapis/rpc v0.0.0-20250324211829-b45e905df463 // indirect
 	google.golang.org/grpc v1.71.0 // indirect
+	gopkg.in/yaml.v3 v3.0.1 // indirect
 )
 
 replace github.com/pentops/j5 => /repo
